@@ -194,6 +194,40 @@ func TestC04_Homomorphism(t *testing.T) {
 		if !bytes.Equal(rem.Encode(), wantA) {
 			g.Fatalf("RemoveBLSPublicKeys(Agg(A+B), B) with |A|=%d |B|=%d = %x, oracle Agg(A) = %x", cut, n-cut, rem.Encode(), wantA)
 		}
+		// removal in two steps: the key handed to the second call is the (un-normalised) result of the first
+		if len(B) >= 2 {
+			split := g.Int("removeSplit", 1, len(B)-1)
+			rem1, err := crypto.RemoveBLSPublicKeys(aggPk, B[:split])
+			if err != nil {
+				g.Fatalf("RemoveBLSPublicKeys (first step): %v", err)
+			}
+			rem2, err := crypto.RemoveBLSPublicKeys(rem1, B[split:])
+			if err != nil || !bytes.Equal(rem2.Encode(), wantA) {
+				g.Fatalf("RemoveBLSPublicKeys in two steps (|A|=%d, then %d and %d keys removed) = %x (%v), oracle Agg(A) = %x", cut, split, len(B)-split, rem2.Encode(), err, wantA)
+			}
+			g.Class("removal:twoSteps")
+		}
+		// removal from what another constructor returned for the same point (decoded, one-element aggregate, removal)
+		if via := pkVariant(g, "aggVia", blsKey{pk: aggPk, x: new(big.Int).SetBytes(wantSk)}); via != aggPk && len(B) > 0 {
+			rem3, err := crypto.RemoveBLSPublicKeys(via, B)
+			if err != nil || !bytes.Equal(rem3.Encode(), wantA) {
+				g.Fatalf("RemoveBLSPublicKeys(another object for Agg(A+B), B) = %x (%v), oracle Agg(A) = %x", rem3.Encode(), err, wantA)
+			}
+		}
+		// removal from the identity left after removing everything: −pk
+		if n >= 1 && g.Chance("removeFromLeftoverIdentity", 1, 3) {
+			leftover, err := crypto.RemoveBLSPublicKeys(aggPk, pks2)
+			if err != nil {
+				g.Fatalf("RemoveBLSPublicKeys(all): %v", err)
+			}
+			j := g.Pick("removeOneMore", n)
+			neg, err := crypto.RemoveBLSPublicKeys(leftover, pks2[j:j+1])
+			want := bls381.G2Compress(bls381.G2Generator().Mul(new(big.Int).Sub(blsR, xs[p[j]])), swapped)
+			if err != nil || !bytes.Equal(neg.Encode(), want) {
+				g.Fatalf("RemoveBLSPublicKeys(identity left after removing all keys, one key) = %x (%v), oracle −pk = %x", neg.Encode(), err, want)
+			}
+			g.Class("removal:fromLeftoverIdentity")
+		}
 		if cut > 0 {
 			aggA, _ := crypto.AggregateBLSPublicKeys(A)
 			if !aggA.Equals(rem) || !rem.Equals(aggA) {
